@@ -297,6 +297,7 @@ func (d *DiskQueue) writeOne(data []byte) error {
 		if err != nil {
 			return err
 		}
+		verifCrashPoint("write.open")
 
 		log.Printf("DISKQUEUE(%s): writeOne() opened %s", d.name, curFileName)
 
@@ -330,6 +331,7 @@ func (d *DiskQueue) writeOne(data []byte) error {
 		d.writeFile = nil
 		return err
 	}
+	verifCrashPoint("write.data")
 
 	totalBytes := int64(4 + dataLen)
 	d.writePos += totalBytes
@@ -363,6 +365,7 @@ func (d *DiskQueue) sync() error {
 			d.writeFile = nil
 			return err
 		}
+		verifCrashPoint("sync.data")
 	}
 
 	err := d.persistMetaData()
@@ -414,6 +417,7 @@ func (d *DiskQueue) persistMetaData() error {
 	if err != nil {
 		return err
 	}
+	verifCrashPoint("meta.tmp.create")
 
 	_, err = fmt.Fprintf(f, "%d\n%d,%d\n%d,%d\n",
 		atomic.LoadInt64(&d.depth),
@@ -423,10 +427,12 @@ func (d *DiskQueue) persistMetaData() error {
 		f.Close()
 		return err
 	}
+	verifCrashPoint("meta.tmp.write")
 	f.Sync()
 	f.Close()
 
 	// atomically rename
+	defer verifCrashPoint("meta.rename") // runs after the rename below
 	return os.Rename(tmpFileName, fileName)
 }
 
@@ -486,6 +492,7 @@ func (d *DiskQueue) moveForward() {
 		if err != nil {
 			log.Printf("ERROR: failed to Remove(%s) - %s", fn, err.Error())
 		}
+		verifCrashPoint("read.remove")
 	}
 
 	d.checkTailCorruption(depth)
@@ -513,6 +520,7 @@ func (d *DiskQueue) handleReadError() {
 	if err != nil {
 		log.Printf("ERROR: diskqueue(%s) failed to rename bad diskqueue file %s to %s", d.name, badFn, badRenameFn)
 	}
+	verifCrashPoint("read.renamebad")
 
 	d.readFileNum++
 	d.readPos = 0
@@ -569,6 +577,11 @@ func (d *DiskQueue) ioLoop() {
 			r = nil
 		}
 
+		if r != nil {
+			verifCrashPoint("loop.select.data")
+		} else {
+			verifCrashPoint("loop.select.idle")
+		}
 		select {
 		// the Go channel spec dictates that nil channel operations (read or write)
 		// in a select are skipped, we set r to d.readChan only when there is data to read
